@@ -10,6 +10,12 @@ open MaddyVerif.Errors Driver
 partial def parseErr : List String → Option (Err × List String)
   | "P" :: r => some (.plain, r)
   | "D" :: r => some (.deadline, r)
+  -- `C` = context.Canceled: an ordinary error value for every conversion (nothing looks for it);
+  -- `Q t <cause>` = net.DNSError{IsTemporary: t, UnwrapErr: cause}: Temporary() and Unwrap()
+  | "C" :: r => some (.plain, r)
+  | "Q" :: b :: r => do
+      let (i, r') ← parseErr r
+      pure (.withTemp (b == "1") i, r')
   | "N" :: b :: r => some (.net (b == "1"), r)
   | "S" :: c :: a :: s :: d :: m :: r => do
       pure (.smtp (← c.toNat?) ⟨← a.toNat?, ← s.toNat?, ← d.toNat?⟩ (← unhexRunes? m), r)
@@ -80,6 +86,8 @@ def opDesc : String → Option (Bool × Bool × Err)
   | "ctx"     => some (false, true, .deadline)                  -- context.DeadlineExceeded
   | "dns0"    => some (true, false, .net false)                 -- DNSError{IsNotFound}
   | "dns1"    => some (true, true, .net true)                   -- DNSError{IsTemporary}
+  | "dnsc"    => some (true, false, .withTemp false .plain)     -- DNSError{UnwrapErr: context.Canceled}
+  | "cancel"  => some (false, false, .plain)                    -- context.Canceled
   | _ => none
 
 def opErr (d : Bool × Bool × Err) : Err := .withTemp d.2.1 d.2.2
@@ -188,18 +196,63 @@ def splitSemi (toks : List String) : List (List String) :=
     if t == ";" then ([], p.1.reverse :: p.2) else (t :: p.1, p.2)) ([], [])
   (cur.reverse :: acc).reverse
 
+def splitPlus (toks : List String) : List (List String) :=
+  let (cur, acc) := toks.foldl (fun (p : List String × List (List String)) t =>
+    if t == "+" then ([], p.1.reverse :: p.2) else (t :: p.1, p.2)) ([], [])
+  (cur.reverse :: acc).reverse
+
 /-- one planned attempt: `[K] ok` or `[K] <stage> <tree>`; `K` = the queue is restarted before the
 attempt, `<stage>` ∈ s r b n c = where the transaction fails — both invisible to the model -/
 def parseAttempt : List String → Option (Option Err)
   | "K" :: r => parseAttempt r
   | ["ok"] => some none
   | st :: r =>
-    if st == "s" || st == "r" || st == "b" || st == "n" || st == "c" then
+    if st == "n" then
+      -- the statuses a partial-delivery target reports for the recipient in this attempt, in order
+      -- (`ok` = a success status), separated by `+`
+      match (splitPlus r).mapM (fun seg =>
+          match seg with
+          | ["ok"] => some none
+          | _ => match parseErr seg with
+            | some (e, []) => some (some e)
+            | _ => none) with
+      | some sts => if sts.getLast?.join.isNone then none else some (lastStatus sts)
+      | none => none
+    else if st == "s" || st == "r" || st == "b" || st == "c" then
       match parseErr r with
       | some (e, []) => some (some e)
       | _ => none
     else none
   | [] => none
+
+/-- one configured DNSBL: `ok` clean, `L <score>` lists the client, `E <tree>` the lookup fails -/
+def parseListOut : List String → Option ListOut
+  | ["ok"] => some .clean
+  | ["L", s] => do pure (.listed (← s.toInt?))
+  | "E" :: r => match parseErr r with
+    | some (e, []) => some (.failed e)
+    | _ => none
+  | _ => none
+
+/-- `M <utf8> ok|<tree>` MAIL, `R` RCPT, `Z` RSET -/
+def parseSessCmd : List String → Option SessCmd
+  | ["R"] => some .rcpt
+  | ["Z"] => some .rset
+  | ["M", u, "ok"] => some (.mail (u == "1") none)
+  | "M" :: u :: r => match parseErr r with
+    | some (e, []) => some (.mail (u == "1") (some e))
+    | _ => none
+  | _ => none
+
+def showSessReply : SessReply → String
+  | .ok => "250"
+  | .noMail => "502 5.5.1 text:" ++ hexRunes ("Missing MAIL FROM command.".toList.map Char.toNat)
+  | .nested => "503 5.5.1 text:" ++ hexRunes ("Nested MAIL command".toList.map Char.toNat)
+  | .err r => showReply r
+
+def showSessReplies (i : Nat) : List SessReply → List String
+  | [] => []
+  | r :: t => s!"{i}:{showSessReply r}" :: showSessReplies (i + 1) t
 
 def showEnch (e : Ench) : String := s!"{e.cls}.{e.subj}.{e.det}"
 
@@ -482,6 +535,31 @@ def handle : List String → String
       let pf := fun r => (plans[r - 1]?).getD []
       showMulti (runMulti m (u == "1") pf fuel 0 (List.range' 1 plans.length) .init)
     | _, _ => "bad-op"
+  | "dnsbl" :: rt :: qt :: _via :: ";" :: rest =>
+    match rt.toInt?, qt.toInt?, (splitSemi rest).mapM parseListOut with
+    | some rt, some qt, some outs =>
+      match failedLookups outs with
+      | [] =>
+        match checkLists rt qt outs 0 with
+        | .reject e => "reject " ++ showGood e
+        | .quarantine => "quarantine"
+        | .pass => "pass"
+      | fs => "fail " ++ " || ".intercalate (fs.map (fun e => showGood (dnsblLookupErr e))) ++ " multi=one-of-them"
+    | _, _, _ => "bad-op"
+  | "sess" :: d :: ";" :: rest =>
+    match (splitSemi rest).mapM parseSessCmd with
+    | some cmds =>
+      if cmds.any (fun c => match c with
+          | .mail _ (some e) => (wrapErr true e).code < 400 || (wrapErr true e).code > 599
+          | _ => false) then "wire-unspeakable" else
+      " | ".intercalate (showSessReplies 0 (sessRun (d == "1") .init cmds))
+    | none => "bad-op"
+  | "dnschk" :: site :: rest =>
+    match parseErr rest with
+    | some (e, []) =>
+      if site == "mx" then showGood (policyLookupErr 0 e)
+      else if site == "rdns" then showGood (policyLookupErr 25 e) else "bad-op"
+    | _ => "bad-op"
   | "mxlookup" :: rest =>
     match parseErr rest with
     | some (e, []) => showGood (lookupMXErr e)
